@@ -1324,6 +1324,20 @@ def nd_method(eng, arr, name):
                 out[ix] = comb(*[e.truth(x) for x in moved[ix]])
             return nd_from_obj(out) if out.shape != () else out[()]
         return Builtin('ndarray.' + name, reduce_)
+    if name in ('min', 'max'):
+        def red(e, a, k, name=name):
+            if a or k.get('axis') is not None:
+                raise EngineError('ndarray.%s with an axis' % name)
+            xs = flat(arr.data)
+            if not xs:
+                raise PyRaise('ValueError', ('zero-size array to reduction operation',))
+            r = xs[0]
+            for x in xs[1:]:
+                if isinstance(x, CX) or isinstance(r, CX):
+                    raise EngineError('ndarray.%s of complex values' % name)
+                r = ite(r_cmp('<=' if name == 'min' else '>=', r, x), r, x)
+            return r
+        return Builtin('ndarray.' + name, red)
     if name == 'flat':
         return SList([('conc', flat(arr.data))])
     if name == 'real':
